@@ -235,6 +235,8 @@ func (vt *Model) sgr(params [][]int) {
 					uint8(params[i][5]),
 				)
 			}
+		case 59:
+			vt.cursor.UnderlineColor = 0
 		case 90, 91, 92, 93, 94, 95, 96, 97:
 			vt.cursor.Foreground = vaxis.IndexColor(uint8(params[i][0] - 90 + 8))
 		case 100, 101, 102, 103, 104, 105, 106, 107:
